@@ -228,9 +228,15 @@ class Property:
         # verdict
         known = load_known(pid)
         violations, disagreements, known_seen = [], [], {}
+        # a known finding is a defect of the unchanged code, which the model reproduces: a violation on a case where model
+        # and implementation DISAGREE is something else and is never filed under a known class
+        disagree_ids = set(f.case.id for f in findings if f.kind == "disagree" and f.case is not None)
         for f in findings:
             hit = None
+            ids = set(x.id for x in [f.case] + list(f.related) if x is not None)
             for kid, cls, text in known:
+                if f.kind == "violation" and ids & disagree_ids:
+                    break
                 if self.known_class(cls, f):
                     hit = (kid, text)
                     break
